@@ -298,11 +298,12 @@ def run(spec, ctx):
                 space = (bytes((a,) + rest) for a in firsts for rest in itertools.product(range(256), repeat=ln - 1))
             for b in space:
                 fails = check_decode(b)
+                ctx.trail.append(b)
                 n += 1
                 if dec_nontrivial(b):
                     nt += 1
                 for s, m in fails:
-                    ctx.fail(dict(k="dec", b=b.hex()), s, m)
+                    ctx.fail(dict(k="dec", b=b.hex()), s, m, trail_case=lambda x: dict(k="dec", b=x.hex()))
         ctx.bulk(n, nt, "dec:short", dict(k="dec", b="0b0501"))
         ctx.mark_exhaustive("all octet strings of length %s through the decoder" % ("== 3 (slice)" if "first_hi" in spec else "<= %d" % L))
     elif kind == "random":
